@@ -215,7 +215,7 @@ pub fn worker(id: &str, seed: u64, start: u64, step: u64, end: u64) -> i32 {
             } else if cur != u64::MAX && since.elapsed().as_secs() >= limit_s {
                 println!("{}", json!({"hang": cur}));
                 let _ = std::io::stdout().flush();
-                unsafe { libc::_exit(3) }
+                crate::leave(3)
             }
         }
     });
@@ -286,7 +286,7 @@ pub fn worker(id: &str, seed: u64, start: u64, step: u64, end: u64) -> i32 {
                 // threads of the finished run were abandoned (a node exited or hung): continue in a fresh process
                 let _ = writeln!(l, "{}", json!({"restart_after": run}));
                 let _ = l.flush();
-                unsafe { libc::_exit(0) }
+                crate::leave(0)
             }
             let _ = l.flush();
         }
@@ -464,7 +464,7 @@ pub fn try_cmd(id: &str, doc: &str, fin: bool) -> i32 {
     use std::io::Write;
     let _ = std::io::stdout().flush();
     // leave without running exit handlers: a parked "exited" node thread may hold the guard in std's exit path
-    unsafe { libc::_exit(0) }
+    crate::leave(0)
 }
 
 /// run `dcmsim <args>` with `input` on stdin; its stdout (one line), or None after 20 s / on failure
